@@ -134,6 +134,8 @@ pub fn unify(req: &J) -> J {
     let shared = Rc::new(RefCell::new(MonState::new()));
     let budget = req.get("budget").and_then(J::as_u64);
     shared.borrow_mut().stop_at = budget;
+    let want_folds = req.get("observe_folds").and_then(J::as_bool).unwrap_or(false);
+    shared.borrow_mut().want_folds = want_folds;
     if let Some(f) = req.get("fold") {
         let mut s = shared.borrow_mut();
         s.fold_mode = match f.get("mode").and_then(J::as_str).unwrap_or("natural") {
@@ -154,7 +156,12 @@ pub fn unify(req: &J) -> J {
     let r = unification::unify(&mut state, &wd);
     storage_layout_extractor::verif::uninstall();
     let total = state.tyvar_count();
-    let mon = shared.borrow().summary();
+    let mut mon = shared.borrow().summary();
+    if want_folds {
+        let s = shared.borrow();
+        let tail: Vec<J> = if s.folds_tail.is_empty() { s.folds.clone() } else { s.folds_tail.iter().cloned().collect() };
+        mon["folds_tail"] = J::Array(tail);
+    }
     match r {
         Err(e) => {
             let stopped = e.payloads().iter().any(|p| format!("{:?}", p.payload).starts_with("StoppedByWatchdog"));
